@@ -194,6 +194,14 @@ func nontrivialFeatures(fs []string) int {
 // ---------------------------------------------------------------- replay
 
 func replay(test string, raw json.RawMessage) (string, string) {
+	if test == "ExprMatrix" {
+		var mk mkase
+		if err := json.Unmarshal(raw, &mk); err != nil {
+			return "harness/bad-replay", err.Error()
+		}
+		_, key, what, _ := judgeMatrix(getWorker(), mk.Exprs)
+		return key, what
+	}
 	var k kase
 	if err := json.Unmarshal(raw, &k); err != nil {
 		return "harness/bad-replay", err.Error()
